@@ -324,6 +324,34 @@ func TestC02UnsubStorm(t *testing.T) {
 		for _, f := range conc.CheckIntervals(w, h, q, nil) {
 			run.Violation("storm:"+f.Sig, f.Desc, map[string]any{"case": i, "goroutines": G, "gomaxprocs": procs[i%len(procs)], "history": w.Log})
 		}
+		// first use of a fresh bus from several goroutines at once (same routing shard): no successful
+		// subscription may be lost
+		{
+			fw := conc.NewWorld(conc.SameShardTypes(all, 3, rng.Uint64()), rng.Uint64(), true)
+			fw.NoisePct = 0
+			var fwg sync.WaitGroup
+			go1 := make(chan struct{})
+			for g := 0; g < 4; g++ {
+				fwg.Add(1)
+				go func(g int) {
+					defer fwg.Done()
+					<-go1
+					if g == 3 {
+						fw.Has(g, 0)
+						fw.Publish(g, 1, nil)
+						return
+					}
+					fw.Subscribe(g, &conc.Reg{T: g, Class: 0})
+				}(g)
+			}
+			close(go1)
+			fwg.Wait()
+			fq := quiesce(fw, 3)
+			for _, f := range conc.CheckIntervals(fw, conc.Index(fw.Log), fq, nil) {
+				run.Violation("first-use:"+f.Sig, f.Desc, map[string]any{"case": i, "gomaxprocs": procs[i%len(procs)], "history": fw.Log})
+			}
+			run.Count("first_use_rounds", 1)
+		}
 		sig, _ := conc.OverlapSignature(w.Log)
 		ov := strings.Contains(sig, "unsub~unsub")
 		run.Case(fmt.Sprintf("G%d ov%v p%d", G, ov, procs[i%len(procs)]), ov)
